@@ -51,7 +51,7 @@ class CombinatorOpener:
 
     def open(self, d):
         if d.get('kind') == 'promoted': return d
-        if not any(b['term']['k'] == 'call' and (COMBINATOR.match(T.strip_generics_tail(b['term'].get('r') or b['term'].get('f') or '')) or self._helper(b['term']) or self._conversion(b['term'])) for b in d['blocks']): return d
+        if not any(b['term']['k'] == 'call' and (COMBINATOR.match(T.strip_generics_tail(b['term'].get('r') or b['term'].get('f') or '')) or self._helper(b['term']) or self._conversion(b['term']) or re.search(r'bool>?::(then_some|then)$', T.strip_generics_tail(b['term'].get('r') or b['term'].get('f') or ''))) for b in d['blocks']): return d
         rw = NZ.Rewriter(d)
         rw.promoted_of = lambda v, callee: v if v in self.F.bodies else (('%s::promoted[%s]' % (callee, re.search(r'::promoted\[(\d+)\]$', v).group(1))) if re.search(r'::promoted\[(\d+)\]$', v) else v)
         for _ in range(60):
@@ -109,10 +109,37 @@ class CombinatorOpener:
             hdr = (cb.hdr if cb is not None else {}) or {}
             rw.blocks[blk]['term'] = NZ.mk_call(o['v'], path, hdr.get('trait'), hdr.get('self'), hdr.get('item') or path.split('::')[-1], args, dst, cont, span)
 
+    def _bool_then(self, rw, bi, t):
+        """`c.then_some(v)` / `c.then(|| v)`  ==  if c { Some(v) } else { None }"""
+        nm = T.strip_generics_tail(t.get('r') or t.get('f') or '')
+        m = re.search(r'(?:^|::)bool>?::(then_some|then)$', nm) or re.search(r'<impl bool>::(then_some|then)$', nm)
+        if not m or len(t['args']) != 2: return False
+        t['c08_opened'] = True
+        B = rw.blocks; span = t.get('span'); line = (span or {}).get('lo', 0); dst = t['dst']; after = t['t']
+        fn = None
+        if m.group(1) == 'then':
+            fn = self._callable(rw, t['args'][1])
+            if fn is None: return False
+        yes = rw.new_block(); no = rw.new_block()
+        B[bi]['term'] = {'k': 'switch', 'd': t['args'][0], 'ts': [[0, no]], 'else': yes}
+        if fn is None:
+            B[yes]['st'].append(NZ._agg(dst, 'std::option::Option::Some', [t['args'][1]], line=line)); rw.goto(yes, after)
+        else:
+            r = rw.new_local('?'); nxt = rw.new_block()
+            self._invoke(rw, yes, fn, [], NZ._pl(r), nxt, span)
+            B[nxt]['st'].append(NZ._agg(dst, 'std::option::Option::Some', [NZ._mv(r)], line=line)); rw.goto(nxt, after)
+        B[no]['st'].append(NZ._agg(dst, 'std::option::Option::None', [], line=line)); rw.goto(no, after)
+        rw.changed = True
+        return True
+
     def _one(self, rw):
         for bi, b in enumerate(rw.blocks):
             t = b['term']
             if b['cleanup'] or t['k'] != 'call' or t.get('c08_opened') or t['t'] < 0: continue
+            try:
+                if self._bool_then(rw, bi, t): return True
+            except (NZ._GiveUp, KeyError, IndexError, ValueError):
+                pass
             m = COMBINATOR.match(T.strip_generics_tail(t.get('r') or t.get('f') or ''))
             if not m:
                 hn = self._helper(t) or self._conversion(t)
@@ -526,11 +553,22 @@ def mustcall(ctx, rule, body, call_pred, what, propagate=True):        # shadows
 
 
 # ------------------------------------------------------------------------------- small dataflow helpers
+def const_value(body, v):
+    """text of a constant operand; a named constant (`const MESSAGE: &str = ".."`, associated consts) resolves to its value"""
+    F = getattr(body, 'facts', None)
+    for _ in range(4):
+        if v.startswith('"') or F is None: break
+        c = F.consts.get(v) or F.consts.get(v[6:] if v.startswith('const ') else v)
+        if c is None: break
+        v = c[1]
+    return v
+
+
 def lit_of(body, a):
-    """string literal an operand evaluates to (directly, or through `let name = "lit"` / references)"""
-    if a['k'] == 'const': return a['v'].strip('"')
+    """string literal an operand evaluates to (directly, through a named constant, `let name = "lit"` or references)"""
+    if a['k'] == 'const': return const_value(body, a['v']).strip('"')
     e = T.strip_wrappers(T.expr(body, a))
-    if e[0] == 'const' and e[1].startswith('"'): return e[1].strip('"')
+    if e[0] == 'const' and const_value(body, e[1]).startswith('"'): return const_value(body, e[1]).strip('"')
     if body.kind == 'closure' and e[0] == 'place' and e[1] == 1 and len(e[2]) == 1 and e[2][0][1].isdigit():
         # captured variable: the operand of the closure aggregate in the parent
         F = getattr(body, 'facts', None); pa = F.bodies.get(body.parent) if F is not None else None
@@ -826,21 +864,15 @@ def validate_rules(ctx):
             ctx.check(rs.has_field(INST, f), 'C08.defined/Instance::used_ids/returned/' + f, 'T-CARRY', b.name, 'ids used by self.%s are not part of the returned set' % f, b.site())
         extra = sorted({f for a, f in rs.fields if a == INST} - {'objective', 'constraints', 'removed_constraints'})
         ctx.check(not extra, 'C08.defined/Instance::used_ids/only-functions', 'T-CARRY', b.name, 'the used ids also depend on self.%s' % extra, b.site())
-        # one instance per collection: some loop over it (one loop may serve both: chain) adds the ids of every element
+        # one instance per collection: the ids of every element reach the returned set on every path.  Decided like the kernels
+        # (contribution sites promoted over the loops, path probing), so two accumulating `for` loops, one loop over a chain and
+        # the pipeline once(objective).chain(active).chain(removed).flat_map(kernel).collect() are the same thing; elements
+        # without payload may be dropped (`if let Some` arm or the payload filter_map), nothing else.
         optionals = [(RC, 'constraint')]
-        for f, opt in (('constraints', None), ('removed_constraints', (RC, 'constraint'))):
-            ok = False; site = b.site()
-            for lo in loops_over(ctx, b, INST, f):
-                ext = [c for c in b.calls if c.bb in lo[4] and (c.item == 'extend' or is_set_insert(c))]
-                via = {c.bb for c in ext}
-                if opt:
-                    for g in option_tests(b, opt[0], opt[1]):
-                        if g.switch_bb in lo[4] and g.false_bb is not None: via.add(g.false_bb)
-                si = ctx.S.slice_operand(b, lo[0].args[0])
-                restr = [x.item for x in si.call_objs if x.item in RESTRICTING and 'Iterator' in (x.trait or '') and not payload_filter(ctx, b, x, optionals)]
-                site = b.site(lo[0].bb)
-                if ext and not restr and T.must_pass(b, lo[2], {lo[1]}, via) and all(b.dominates(lo[1], e) for e in b.strict_ok_exits() | set(b.return_blocks())): ok = True
-            ctx.check(ok, 'C08.defined/Instance::used_ids/every-%s' % f, 'T-LOOPMUST', b.name, 'an element of self.%s can be skipped' % f, site)
+        skips = {g.false_bb for g in option_tests(b, RC, 'constraint') if g.false_bb is not None}
+        for f in ('constraints', 'removed_constraints'):
+            sites = contribution_sites(ctx, b, lambda s_, call, f=f: s_.has_field(INST, f), None, allow=lambda x: payload_filter(ctx, b, x, optionals), skips=skips)
+            ctx.check(on_every_path(b, sites), 'C08.defined/Instance::used_ids/every-%s' % f, 'T-LOOPMUST', b.name, 'an element of self.%s can be skipped' % f, b.site())
     b = ctx.method('C08.defined/ParametricInstance::used_ids/anchor', PI, 'used_ids')
     if b is not None:
         cover(ctx, 'C08.defined/ParametricInstance::used_ids/cover', b, PI, only=('objective', 'constraints'))
@@ -898,11 +930,13 @@ def conditional_closure_locals(ctx, body):
     return out
 
 
-def contribution_sites(ctx, body, wanted, coll=None, unconditional=True):
+def contribution_sites(ctx, body, wanted, coll=None, unconditional=True, allow=None, skips=()):
     """blocks at which a value satisfying `wanted(slice)` is written into the returned object (a call / aggregate whose
     destination -- or `&mut` receiver -- is the returned object and whose other inputs derive from the wanted source).
     A site inside a loop over the source (unrestricted, every iteration passes the site) is promoted to the loop header.
-    unconditional: inputs are sliced without the closures of Option/Result combinators."""
+    unconditional: inputs are sliced without the closures of Option/Result combinators.
+    allow(call): restricting adaptors that are part of the contract (elements without payload are dropped);
+    skips: blocks an iteration may take instead of the site (the None arm of the optional payload)."""
     from ..dataflow import node_of
     R = returned_object(body)
     stops = tuple(conditional_closure_locals(ctx, body)) if unconditional else ()
@@ -915,7 +949,7 @@ def contribution_sites(ctx, body, wanted, coll=None, unconditional=True):
 
     def restricted(s):
         # only a part of the source: a restricting adaptor on the way, here or inside a closure that was not spliced
-        if any(x.item in RESTRICTING and 'Iterator' in (x.trait or '') for x in s.call_objs): return True
+        if any(x.item in RESTRICTING and 'Iterator' in (x.trait or '') and not (allow and allow(x)) for x in s.call_objs): return True
         for cn in s.closures:
             cb = ctx.F.bodies.get(cn)
             if cb is not None and any(x.item in RESTRICTING and 'Iterator' in (x.trait or '') for x in cb.calls): return True
@@ -944,7 +978,7 @@ def contribution_sites(ctx, body, wanted, coll=None, unconditional=True):
             it = sl(lo[0].args[0])
             if it is None or not (wanted(it, None) or (coll and it.has_field(*coll))): break
             if restricted(it): break
-            if not T.must_pass(body, lo[2], {lo[1]}, {cur}): break
+            if not T.must_pass(body, lo[2], {lo[1]}, {cur} | set(skips)): break
             cur = lo[1]; sites.add(cur)
     return sites
 
@@ -1025,7 +1059,7 @@ def literals_of(body, e, depth=3):
     """string literals an expression tree is built from; a variable captured by a closure is looked up in the parent"""
     have = set()
     for y in T.expr_walk(e):
-        if y[0] == 'const': have.add(y[1].strip('"'))
+        if y[0] == 'const': have.add(const_value(body, y[1]).strip('"'))
         elif y[0] == 'place' and y[1] == 1 and body.kind == 'closure' and y[2] and y[2][0][1].isdigit() and depth > 0:
             F = getattr(body, 'facts', None); pa = F.bodies.get(body.parent) if F is not None else None
             if pa is None: continue
@@ -1193,7 +1227,7 @@ def bound_tests(body):
         e = T.strip_wrappers(T.expr(body, o))
         if e[0] == 'place' and not e[2] and e[1] in (1, 2): return 'lower' if e[1] == 1 else 'upper'
         if e[0] == 'const':
-            v = T.f64_const(e[1])
+            v = T.f64_const(const_value(body, e[1]))
             if v == float('inf'): return '+inf'
             if v == float('-inf'): return '-inf'
         return T.expr_str(e, 4)
@@ -1256,12 +1290,27 @@ def bound_rules(ctx):
     R = 'C08.parse.bound'
     b = ctx.method(R + '/Bound::parse/anchor', 'v1::Bound', 'parse', trait='Parse')
     if b is not None:
-        news = [c for c in b.calls if c.path.endswith('Bound::new')]
-        ok = bool(news) and all(T.access_path(b, c.args[0])[0] == [('v1::Bound', 'lower')] and T.access_path(b, c.args[1])[0] == [('v1::Bound', 'upper')] for c in news)
-        ok = ok and all(any(b.dominates(c.bb, e) for c in news) for e in b.strict_ok_exits())
-        ctx.check(ok, R + '/Bound::parse/through-new', 'T-MUSTCALL', b.name, 'v1::Bound is not converted by Bound::new(self.lower, self.upper)', b.site())
-        errflow_calls(ctx, R + '/Bound::parse/error', b, news, 'Bound::new')
-        ctx.check(not find_aggregates(b, 'bound::Bound'), R + '/Bound::parse/no-direct-construction', 'T-CARRY', b.name, 'Bound is constructed without validation', b.site())
+        # a Bound is obtained only through validation of the same two values.  Equivalent constructions:
+        #   Bound::new(lower, upper)?                                       -- the validating constructor (its own rules below)
+        #   BoundError::check(lower, upper)?; Bound { lower, upper }        -- the constructor written out: the aggregate is reachable
+        #                                                                      only on the success side of a check of the same two values
+        def same(a, o): return T.strip_wrappers(T.expr(b, a)) == T.strip_wrappers(T.expr(b, o))
+        def ends(a, o): return T.access_path(b, a)[0] == [('v1::Bound', 'lower')] and T.access_path(b, o)[0] == [('v1::Bound', 'upper')]
+        validators = [c for c in b.calls if c.path.endswith('Bound::new') and len(c.args) == 2]
+        checks = [c for c in b.calls if c.item == 'check' and 'BoundError' in c.path and len(c.args) == 2]
+        constructions = [(c.bb, c.args[0], c.args[1]) for c in validators]; unvalidated = []
+        for bi, st in find_aggregates(b, 'bound::Bound'):
+            d = dict(zip(st['rv']['fields'], st['rv']['ops']))
+            okc = [c for c in checks if b.dominates(c.bb, bi) and same(c.args[0], d.get('lower')) and same(c.args[1], d.get('upper'))
+                   and not any(k == 'bad' for k, _ in errflow_vp(b, c.dst['l']))
+                   and (T.try_arms(b, c.dst['l']) is None or bi not in reach_vp(b, [T.try_arms(b, c.dst['l'])[1]]))]
+            if okc: constructions.append((bi, d['lower'], d['upper'])); validators += okc
+            else: unvalidated.append(bi)
+        ok = bool(constructions) and all(ends(lo_, up_) for bb_, lo_, up_ in constructions)
+        ok = ok and all(any(b.dominates(bb_, e) for bb_, lo_, up_ in constructions) for e in b.strict_ok_exits())
+        ctx.check(ok, R + '/Bound::parse/through-new', 'T-MUSTCALL', b.name, 'v1::Bound is not converted by a validated construction from (self.lower, self.upper)', b.site())
+        errflow_calls(ctx, R + '/Bound::parse/error', b, list({id(c): c for c in validators}.values())[:1], 'bound validation')
+        ctx.check(not unvalidated, R + '/Bound::parse/no-direct-construction', 'T-CARRY', b.name, 'Bound is constructed without a successful BoundError::check of the same two values', b.site(unvalidated[0]) if unvalidated else b.site())
     nb = ctx.method(R + '/Bound::new/anchor', 'bound::Bound', 'new')
     if nb is not None:
         chk = mustcall(ctx, R + '/Bound::new/check-first', nb, lambda c: c.item == 'check' and 'BoundError' in c.path, 'BoundError::check(lower, upper)?')
@@ -1468,8 +1517,14 @@ def id_tests(ctx, body, adt, field, kind):
 
 def undefined_error(body, g, kind):
     """on the `not a key` side RawParseError::Undefined<Kind>ID is built and only Err-exits are reachable"""
-    only = g.only_this_time(False)
-    built = any(bi in only and st['rv']['k'] == 'agg' and st['rv']['adt'].endswith('RawParseError::Undefined%sID' % kind.capitalize()) for bi, st in body.stmts())
+    only = g.only_this_time(False); suffix = 'RawParseError::Undefined%sID' % kind.capitalize()
+    built = False
+    for bi, st in body.stmts():
+        if bi not in only or st['rv']['k'] != 'agg': continue
+        if st['rv']['adt'].endswith(suffix): built = True
+        elif st['rv']['adt'].endswith('Result::Err') and st['rv']['ops']:
+            # `.ok_or(E)`: E is built before the test, this side wraps it
+            if any(y[0] == 'agg' and y[1].endswith(suffix) for y in T.expr_walk(T.expr(body, st['rv']['ops'][0]))): built = True
     return built and g.f['err'] and not g.f['ok']
 
 
